@@ -1,5 +1,5 @@
 (* M11, second half — the traversal loop of one worker, one atomic section at a time. *)
-From Coq Require Import List ZArith NArith Bool Arith.
+From Coq Require Import List ZArith NArith Bool Arith PrimFloat.
 Import ListNotations.
 From I2N Require Import Model.Retry Model.Traverse.
 Local Open Scope nat_scope.
@@ -136,14 +136,13 @@ Definition reverse_node (g : graph) (s : state) (i w : nat) : option (state * li
 Definition bounce (g : graph) (s : state) (w next : nat) : state * list event :=
   let n := nd g next in
   let W := wst s w in
-  let T := (n_timeout n * n_tries n)%Z in
-  let dt := Z.max (T / 10) 10 in                         (* hundredths of a second *)
+  let dt := n_dtz n in
   let seen := memn next (occ_at W) in
-  let bump := seen && (T * 100 <? occ_wait W)%Z in
+  let bump := seen && PrimFloat.ltb (n_budget n) (occ_wait W) in
   let s1 := if bump then set_n s next (fun x => mkN (started x) (finished x) (results x) (rerun_off x)
                                               (Some ((match mct_now x with Some m => m | None => 0 end) + 1)%Z) (locs x))
             else s in
-  let wait := if seen then (occ_wait W + dt)%Z else 0%Z in
+  let wait := if seen then PrimFloat.add (occ_wait W) (n_dt n) else PrimFloat.zero in
   let s2 := set_w s1 w (fun x => mkW [g_root g] (if seen then occ_at x else next :: occ_at x) wait Sleeping) in
   (s2, [EBounce w next dt bump]).
 
@@ -274,7 +273,7 @@ Definition resume (g : graph) (s : state) (w : nat) (out : option status) : stat
   end.
 
 Definition init_state (g : graph) (p : store) : state :=
-  mkS (map (fun _ => mkW [g_root g] [] 0%Z Ready) (g_workers g))
+  mkS (map (fun _ => mkW [g_root g] [] PrimFloat.zero Ready) (g_workers g))
       (map (fun n => mkN None None [] false (n_mct n) []) (g_nodes g))
       [] [] [] [] p [].
 
